@@ -134,6 +134,29 @@ def run(chk):
         keep[p] = '%s: %s' % (src, what)
         for mode in (('cb', 'file') if k % 3 == 0 else (rng.choice(('cb', 'file')),)):
             cases.append('m%d api %s %d %s - %s' % (len(cases), p, rng.randrange(8), mode, QUERIES))
+    # compressed tables: the LZ4 block families of the C14 check (valid, mutated, boundary blocks at every guard), wrapped as a compressed
+    # Silf (version 5) or Glat (version 3) table of a real font and loaded through the whole face constructor
+    from props import c14, fontkit as K
+    class _Sub:                      # the C14 generator wants a check-like object; give it its own stream so the C01 draws stay as they are
+        pass
+    sub = _Sub(); sub.rng = __import__('random').Random(chk.seed * 7 + 1); sub.tier = 'quick'
+    lz_cases, _lz_meta = c14.gen_cases(sub)
+    small = open(os.path.join(vlib.REPO, 'tests/fonts', 'small.ttf'), 'rb').read()
+    awami = open(os.path.join(vlib.REPO, 'tests/fonts', 'Awami_compressed_test.ttf'), 'rb').read()
+    nlz = 0
+    lz_cases = [lc for lc in lz_cases if len(lc.split()) == 3 and lc.split()[1].isdigit()]
+    for lc in lz_cases:
+        f = lc.split()
+        osz = int(f[1]) & 0x07FFFFFF
+        blk = bytes.fromhex(f[2]) if f[2] != '-' else b''
+        if rng.random() < 0.7:
+            tbl = struct.pack('>II', 0x00050000, (1 << 27) | osz) + blk; fontd = K.replace_table(small, b'Silf', tbl); what = 'compressed Silf'
+        else:
+            tbl = struct.pack('>II', 0x00030000, (1 << 27) | osz) + blk; fontd = K.replace_table(awami, b'Glat', tbl); what = 'compressed Glat'
+        p = os.path.join(tmp, 'z%d.ttf' % nlz); nlz += 1
+        open(p, 'wb').write(fontd)
+        keep[p] = '%s: lz4 block %s osz %d' % (what, f[2][:40], osz)
+        cases.append('z%d api %s %d %s - info' % (len(cases), p, rng.choice((0, 2, 6)), rng.choice(('cb', 'file'))))
     _, al, _ = vlib.run_pair(None, hexe, cases, timeout=3000)
     stats = {}
     for c, l in zip(cases, al):
@@ -165,7 +188,7 @@ def run(chk):
     chk.cov.update(evaluations=len(scases) + len(cases), distinct_nontrivial=len(classes), disagreements_checked=ndis, distribution=dist,
                    rule='container: synthetic sfnt files (0..41 tables, offsets / lengths at, just past and far past the end, 32-bit extremes, wrong scaler, truncation anywhere, disagreeing table count) through FileFace '
                         'and the model, table by table; oracle: %d historical single-byte crashers from tests/fuzz-tests plus byte-mutated (60%%), directory-mutated (25%%) and truncated (15%%) copies of the 16 shipped fonts x '
-                        'option bits 0..7 x {callbacks, file}: make, all face / feature / label / feature-value queries, glyph lookups, destroy, LeakSanitizer; non-trivial = distinct (source, options, mode, verdict)' % nhist,
+                        'option bits 0..7 x {callbacks, file}, plus the LZ4 block families of C14 wrapped as compressed Silf / Glat tables: make, all face / feature / label / feature-value queries, glyph lookups, destroy, LeakSanitizer; non-trivial = distinct (source, options, mode, verdict)' % nhist,
                    samples=[scases[0][:200], cases[0][:200]], exhaustive=False)
 
 
